@@ -17,6 +17,14 @@
 //     the bubble's fake clock, a Tick is one time.Sleep across exactly one
 //     tick boundary (interval 1h, the driver keeps half an interval away from
 //     the boundaries);
+//   - the package logger is a gate as well: the only warning of the package
+//     is the one the handler logs when it finds the block subscription's
+//     channel closed (broadcaster.go:207) - an arm that is ready for ever after,
+//     so the handler goes round its loop without ever blocking; the Warn call
+//     parks until the driver releases it, and the driver releases it up to
+//     vbPolls times per quiescence (Go's select picks uniformly among the
+//     ready arms: an arm that is ready is missed vbPolls times in a row with
+//     probability (5/6)^256 < 1e-20), without any fake time passing;
 //   - a call that has not returned although no gate is held is probed: the
 //     fake clock is advanced by 5 minutes (normal duration: 0) and all
 //     goroutines are dumped; only then it is reported as hung.
@@ -29,6 +37,7 @@ import (
 	"math/rand"
 	"runtime"
 	"strings"
+	"sync"
 	"sync/atomic"
 	"testing"
 	"testing/synctest"
@@ -36,13 +45,61 @@ import (
 
 	"github.com/btcsuite/btcd/chainhash/v2"
 	"github.com/btcsuite/btcd/wire/v2"
+	"github.com/btcsuite/btclog"
 	"github.com/lightninglabs/neutrino/blockntfns"
 )
 
 const (
 	vbInterval = time.Hour
 	vbProbe    = 5 * time.Minute
+	vbPolls    = 256
 )
+
+// vbGateLogger is installed as the logger of package pushtx: Warn / Warnf
+// called from a goroutine of a path's bubble park at that path's gate.
+type vbGateLogger struct{ btclog.Logger }
+
+func (vbGateLogger) Warn(...interface{})          { vbWarnGate() }
+func (vbGateLogger) Warnf(string, ...interface{}) { vbWarnGate() }
+
+var (
+	vbSUTs     sync.Map // bubble id -> *vbSUT
+	vbLogOnce  sync.Once
+	vbBubbleRe = "synctest bubble "
+)
+
+// vbBubbleID returns the id of the synctest bubble the calling goroutine
+// belongs to ("" outside a bubble), read off the goroutine's stack header.
+func vbBubbleID() string {
+	var buf [96]byte
+	h := string(buf[:runtime.Stack(buf[:], false)])
+	if i := strings.IndexByte(h, '\n'); i >= 0 {
+		h = h[:i]
+	}
+	i := strings.Index(h, vbBubbleRe)
+	if i < 0 {
+		return ""
+	}
+	h = h[i+len(vbBubbleRe):]
+	if j := strings.IndexAny(h, "],"); j >= 0 {
+		h = h[:j]
+	}
+	return h
+}
+
+func vbWarnGate() {
+	id := vbBubbleID()
+	if id == "" {
+		return
+	}
+	v, ok := vbSUTs.Load(id)
+	if !ok {
+		return
+	}
+	s := v.(*vbSUT)
+	s.warn <- struct{}{}
+	<-s.warnRel
+}
 
 var vbDumps int32
 
@@ -63,6 +120,7 @@ type vbObs struct {
 	Hcb   int     `json:"hcb"`
 	Rcb   int     `json:"rcb"`
 	Rn    int     `json:"rn"`
+	Wn    int     `json:"wn"`
 	Bc    int     `json:"bc"`
 	BcRes int     `json:"bcRes"`
 	Mk    int     `json:"mk"`
@@ -81,6 +139,12 @@ type vbSUT struct {
 	env   vbEnv // package-specific part (rescan slice in package neutrino)
 	calls chan *vbCall
 	ntf   chan blockntfns.BlockNtfn
+	// the block subscription's channel has been closed by the driver
+	closed  bool
+	bubble  string
+	warn    chan struct{} // one token per Warn call parked at the gate
+	warnRel chan struct{}
+	warned  bool // a Warn call is parked (token taken by the driver)
 	pendH []*vbCall
 	pendR []*vbCall
 	rn    int
@@ -166,6 +230,12 @@ func (s *vbSUT) Start(initObs json.RawMessage) error {
 	}
 
 	s.calls = make(chan *vbCall, 256)
+	s.warn = make(chan struct{}, 16)
+	s.warnRel = make(chan struct{})
+	s.bubble = vbBubbleID()
+	if s.bubble != "" {
+		vbSUTs.Store(s.bubble, s)
+	}
 	s.ntf = make(chan blockntfns.BlockNtfn)
 	s.bcDone = make(chan int, 4)
 	s.mkDone = make(chan struct{}, 4)
@@ -230,8 +300,40 @@ func (s *vbSUT) untilTick() time.Duration {
 	return vbInterval - el%vbInterval
 }
 
+// pump lets a handler that is parked in the warning of its closed-channel arm
+// go round its loop, until it no longer comes back to the warning (it is
+// inside a callback, or has returned) or vbPolls rounds are over.
+func (s *vbSUT) pump() bool {
+	any := false
+	for i := 0; i < vbPolls; i++ {
+		if !s.warned {
+			select {
+			case <-s.warn:
+				s.warned = true
+			default:
+			}
+		}
+		if !s.warned {
+			break
+		}
+		s.warned = false
+		s.warnRel <- struct{}{}
+		any = true
+		synctest.Wait()
+	}
+	if !s.warned {
+		select {
+		case <-s.warn:
+			s.warned = true
+		default:
+		}
+	}
+	return any
+}
+
 func (s *vbSUT) settle(extra map[string]interface{}) {
 	synctest.Wait()
+	s.pump()
 	s.drain()
 	outstanding := func() bool {
 		return (s.bcOut && !s.bcHung) || (s.mkOut && !s.mkHung) || (s.stp == 1 && !s.stHung)
@@ -242,6 +344,7 @@ func (s *vbSUT) settle(extra map[string]interface{}) {
 		if s.untilTick() > vbProbe+time.Minute {
 			time.Sleep(vbProbe)
 			synctest.Wait()
+			s.pump()
 			s.drain()
 		}
 		if len(s.pendH) == 0 && len(s.pendR) == 0 {
@@ -310,6 +413,9 @@ func (s *vbSUT) obs() vbObs {
 	}
 	if len(s.pendR) > 0 {
 		o.Rcb = s.pendR[0].tx
+	}
+	if s.warned {
+		o.Wn = 1
 	}
 	st := func(out, hung bool) int {
 		if !out {
@@ -464,11 +570,24 @@ func (s *vbSUT) Step(act map[string]interface{}) (map[string]interface{}, interf
 		if s.rng.Intn(2) == 0 {
 			n = blockntfns.NewBlockDisconnected(wire.BlockHeader{}, 7, wire.BlockHeader{})
 		}
+		if s.closed {
+			skipped = true
+			break
+		}
 		select {
 		case s.ntf <- n:
 		default:
 			skipped = true
 		}
+	case "CloseSub":
+		// the producer of the subscription closes the channel (subscription
+		// cancelled / subscription manager stopped before the Broadcaster)
+		if s.closed {
+			skipped = true
+			break
+		}
+		s.closed = true
+		close(s.ntf)
 	case "Tick":
 		time.Sleep(s.untilTick() + vbInterval/2)
 	case "Stop":
@@ -565,12 +684,18 @@ func (s *vbSUT) Close() {
 		if vbDrain(s.b) {
 			progress = true
 		}
+		if s.pump() {
+			progress = true
+		}
 		if !progress && !s.bcOut && !s.mkOut && s.stp == 3 {
-			return
+			break
 		}
 		if !progress && i > 8 {
-			return
+			break
 		}
+	}
+	if s.bubble != "" {
+		vbSUTs.Delete(s.bubble)
 	}
 }
 
@@ -589,6 +714,7 @@ func vbCtl(act map[string]interface{}) string {
 }
 
 func TestVerifBroadcasterReplay(t *testing.T) {
+	vbLogOnce.Do(func() { vbUseLogger(vbGateLogger{btclog.Disabled}) })
 	vwRun(t, &vwFamily{
 		name:   "broadcaster",
 		ctlKey: vbCtl,
